@@ -74,6 +74,12 @@ static sb_poly_4d_t* sb_i_get_ddpoly(sb_trajectory_segment_t* segment);
 static uint8_t sb_i_get_num_coords(uint8_t header_bits);
 
 /**
+ * @brief Returns whether the segment starting at the given offset (which must
+ * be within the buffer) fits entirely into a buffer of the given length.
+ */
+static sb_bool_t sb_i_is_segment_complete(const uint8_t* buf, size_t offset, size_t buffer_length);
+
+/**
  * Builds the current trajectory segment from the wrapped buffer, starting from
  * the given offset, assuming that the start point of the current segment has
  * to be at the given start position.
@@ -177,6 +183,12 @@ sb_error_t sb_trajectory_init_from_binary_file_in_memory(
 
 sb_error_t sb_i_trajectory_init_from_bytes(sb_trajectory_t* trajectory, uint8_t* buf, size_t nbytes, sb_bool_t owned)
 {
+    /* the header consists of the scale / flags byte, the X, Y and Z coordinates
+     * and the yaw of the start point */
+    if (nbytes < 1 + 4 * sizeof(int16_t)) {
+        return SB_EPARSE;
+    }
+
     if (owned) {
         SB_CHECK(sb_buffer_init_from_bytes(&trajectory->buffer, buf, nbytes));
     } else {
@@ -770,10 +782,11 @@ static sb_error_t sb_i_trajectory_player_build_current_segment(
     data->start_time_msec = start_time_msec;
     data->start_time_sec = start_time_msec / 1000.0f;
 
-    if (offset >= buffer_length || trajectory->scale == 0) {
+    if (offset >= buffer_length || trajectory->scale == 0 || !sb_i_is_segment_complete(buf, offset, buffer_length)) {
         /* We are beyond the end of the buffer or the scale is zero, indicating
          * that there are no segments in the buffer yet (first byte of the
-         * buffer was all zeros) */
+         * buffer was all zeros), or the buffer ends in the middle of the
+         * segment */
         sb_poly_4d_make_constant(&data->poly, start);
 
         data->duration_msec = UINT32_MAX - data->start_time_msec;
@@ -879,4 +892,14 @@ static sb_poly_4d_t* sb_i_get_ddpoly(sb_trajectory_segment_t* data)
 static uint8_t sb_i_get_num_coords(uint8_t header_bits)
 {
     return 1 << (header_bits & 0x03);
+}
+
+static sb_bool_t sb_i_is_segment_complete(const uint8_t* buf, size_t offset, size_t buffer_length)
+{
+    uint8_t header = buf[offset];
+    size_t num_stored_coords = sb_i_get_num_coords(header >> 0) + sb_i_get_num_coords(header >> 2)
+        + sb_i_get_num_coords(header >> 4) + sb_i_get_num_coords(header >> 6) - 4;
+
+    /* header byte, duration, then the stored control points of each axis */
+    return offset + 1 + sizeof(uint16_t) + num_stored_coords * sizeof(int16_t) <= buffer_length;
 }
